@@ -48,6 +48,7 @@ class Family:
         self.source = ""
         self.entries = []       # [(label, expr, wrap)] wrap: "bare" | "list" | "optional" | "dict" | "holder" | "subset"
         self.subset = None      # names of the alternatives of the "subset" entry
+        self.direct = None      # inherited: name of the subclass used as the "direct" entry
         self.n = 0
         self.recursive = False
         self.mapping_kind = "default"
@@ -166,6 +167,9 @@ def generate(rng, n):
             fam.entries.append(("subset", f"Union[{', '.join(sub)}]", "subset"))
         src.append(f"@dataclass\nclass Holder{n}:\n    p: {T}\n    q: Optional[{T}] = None\n    leaf: Leaf{n} = field(default_factory=Leaf{n})\n")
         fam.entries.append(("holder", f"Holder{n}", "holder"))
+        # a subclass used directly (not through the discriminated base): no tag is expected there
+        fam.direct = rng.choice(names)
+        fam.entries.append(("direct", fam.direct, "direct"))
     else:
         explicit = {}
         fam.mapping_kind = rng.choice(["default", "default", "dict"])
@@ -317,7 +321,7 @@ ATOMS = [None, 0, "s", [], {}, True, 1.5, [{}]]
 
 
 def wrap(kind, d, rng, aliaser=None, fam=None):
-    if kind in ("bare", "subset", "optional"):
+    if kind in ("bare", "subset", "optional", "direct"):
         return d
     if kind == "list":
         return [d]
@@ -335,7 +339,10 @@ def workload(fam, entry_kind, rng, aliaser=None, per_alt=3):
     """[(label, datum)]"""
     alts = fam.alts if entry_kind != "subset" else [a for a in fam.alts if a.name in fam.subset]
     out = []
-    for alt in fam.alts:
+    aimed = fam.alts
+    if entry_kind == "direct":
+        aimed = [a for a in fam.alts if a.name == fam.direct] + [a for a in fam.alts if a.name != fam.direct][:1]
+    for alt in aimed:
         for _ in range(per_alt):
             o = alt_object(fam, alt, rng, aliaser)
             out.append((f"valid:{alt.name}", wrap(entry_kind, o, rng, aliaser)))
@@ -378,7 +385,7 @@ def _find_discriminator(root, node, seen=()):
     return None
 
 
-def intended_schema(schema, declare_tag=False, close_children=False, closed=False, implicit_too=False):
+def intended_schema(schema, declare_tag=False, close_children=False, closed=False, implicit_too=False, drop_parent=False):
     """The schema read with the OpenAPI discriminator semantics, expressed in standard JSON Schema: every `oneOf` governed
     by a discriminator becomes a dispatch on the tag (explicit mapping entries, else the last component of the
     alternative's $ref; an alternative with an explicit entry is only reached through it, or also through its name with
@@ -428,6 +435,12 @@ def intended_schema(schema, declare_tag=False, close_children=False, closed=Fals
 
     extra_defs = {}
 
+    def is_parent_ref(e):
+        if isinstance(e, dict) and set(e) == {"$ref"}:
+            tgt = _resolve(schema, e["$ref"])
+            return isinstance(tgt, dict) and isinstance(tgt.get("discriminator"), dict)
+        return False
+
     def walk(x):
         if isinstance(x, list):
             return [walk(e) for e in x]
@@ -447,6 +460,32 @@ def intended_schema(schema, declare_tag=False, close_children=False, closed=Fals
                 return {**rest, "allOf": rest.get("allOf", []) + [dispatch]} if rest else dispatch
         return {k: walk(v) for k, v in x.items()}
 
+    if drop_parent:
+        # a subclass of a discriminated base used on its own: at the root only, the parent (which requires the tag) does not
+        # apply; below the root the same class reached through the base keeps it
+        def drop_at(node):
+            rest = [copy.deepcopy(e) for e in node["allOf"] if not is_parent_ref(e)]
+            if closed:
+                for e in rest:
+                    if isinstance(e, dict) and e.get("type") == "object" and "additionalProperties" not in e:
+                        e["additionalProperties"] = False
+            out_ = {k: v for k, v in node.items() if k != "allOf"}
+            if rest:
+                out_["allOf"] = rest
+            return out_
+
+        def has_parent(node):
+            return isinstance(node, dict) and isinstance(node.get("allOf"), list) and any(is_parent_ref(e) for e in node["allOf"])
+
+        if has_parent(root):
+            root = drop_at(root)
+            found[0] = True
+        elif isinstance(root.get("$ref"), str) and has_parent(_resolve(schema, root["$ref"])):
+            newref = root["$ref"] + "~direct"
+            extra_defs[newref] = None
+            extra_defs[newref] = walk(drop_at(copy.deepcopy(_resolve(schema, root["$ref"]))))
+            root = {**root, "$ref": newref}
+            found[0] = True
     out = walk(root)
     for newref, d in extra_defs.items():
         cur = out
@@ -466,6 +505,12 @@ EXPLANATIONS = [  # (name, options) tried in this order: the first reading that 
     ("discriminator-dispatch+tag-undeclared+open-subclass-schemas", {"declare_tag": True, "close_children": True}),
     ("discriminator-dispatch+implicit-names+tag-undeclared+open-subclass-schemas", {"declare_tag": True, "close_children": True, "implicit_too": True}),
 ]
+
+
+# a subclass of a discriminated base used on its own: the parent (requiring the tag) is dropped, alone or together with the
+# readings above (recursive families dispatch again below the root)
+EXPLANATIONS_DIRECT = [("discriminated-parent-applied-to-a-subclass-used-directly", {"drop_parent": True})] + [
+    ("discriminated-parent-applied-to-a-subclass-used-directly+" + name, {**opts, "drop_parent": True}) for name, opts in EXPLANATIONS]
 
 
 def _aliaser(name):
@@ -536,7 +581,7 @@ def check_c06(env, fam, L):
                 env.count("discriminated_agree")
                 continue
             feats = {"kind": "deserialize-accepts-schema-rejects" if accepted else "schema-accepts-deserialize-rejects", "family": "discriminated"}
-            for name, opts in EXPLANATIONS:
+            for name, opts in (EXPLANATIONS_DIRECT if kind == "direct" else EXPLANATIONS):
                 if name not in explainers:
                     s2 = intended_schema(schema, closed=not ap, **opts)
                     try:
@@ -571,6 +616,8 @@ def reachable_names(fam, kind):
     n = fam.n
     by_name = {a.name: a for a in fam.alts}
     start = [a for a in fam.alts if kind != "subset" or a.name in fam.subset]
+    if kind == "direct":
+        start = [a for a in fam.alts if a.name == fam.direct]
     out, todo = set(), list(start)
     leaf = False
     seen = set()
@@ -595,6 +642,12 @@ def reachable_names(fam, kind):
     if leaf:
         out.add(f"Leaf{n}")
     must = set(out) - {f"Leaf{n}", f"Holder{n}"}  # extracted whatever all_refs: alternatives and the discriminated parent
+    if kind == "direct":  # the subclass itself is not a member of a discriminated union there (extracted only if used twice)
+        must -= {a.type_name for a in fam.alts if a.name == fam.direct}
+        if fam.recursive and any(tp == "REC" for a in start for _, tp, _ in a.fields):
+            pass
+    if kind == "direct" and not any(tp == "REC" for a in start for _, tp, _ in a.fields):
+        must = {fam.base}
     return out, must
 
 
@@ -918,7 +971,7 @@ def check_c07(env, fam, L):
                 env.count("validated")
                 continue
             feats = {"kind": "serialized-data-invalid-for-schema", "family": "discriminated"}
-            for name, opts in EXPLANATIONS:
+            for name, opts in (EXPLANATIONS_DIRECT if kind == "direct" else EXPLANATIONS):
                 if name not in explainers:
                     s2 = intended_schema(schema, closed=not ap, **opts)
                     try:
